@@ -149,7 +149,20 @@ def c16(ctx, res):
                         "indented XML compared with the compact form up to inter-element white space; indented JSON through json.Compact"]
 
 
+def c17(ctx, res):
+    # purity: every read-only method on every Map of the builder's space; Copy aliasing
+    ctx.gen_replay(res, "pure", "MC_C17m.tla", "MC_C17m_quick.cfg" if ctx.quick else "MC_C17m_thorough.cfg")
+    # concurrency: all interleavings of the gate segments (TLC: shared never written, results sequential, termination),
+    # enforced on real goroutines by the gate scheduler, under a -race build; plus free-running stress
+    for cfg in ("MC_C17_p2.cfg", "MC_C17_p2b.cfg", "MC_C17_p3.cfg"):
+        ctx.gen_replay(res, "conc", "MC_C17.tla", cfg, workers=4, race=True)
+    res.assumptions += ["data-race freedom is decided by the Go race detector on the replayed schedules and on free-running stress runs, not by TLC; TLC decides the design (no shared variable is written) and enumerates the interleavings",
+                        "interleavings are at the granularity of the gate hook points (heads of the recursive walkers and codec loops); finer interleavings are covered by the race detector's happens-before analysis of the free runs",
+                        "gob: the harness registers map[string]interface{} and []interface{} (the caller's documented duty)"]
+
+
 PROPS = {
+    "C17": c17,
     "C16": c16,
     "C14": c14,
     "C06": c06,
